@@ -148,6 +148,48 @@ func fingerprintDocument(doc *ast.Document, op *ast.OperationDefinition, operati
 	w.writeVariableDefs(op.VariableDefinitions)
 	w.writeDirectives(op.Directives)
 	w.writeSelectionSet(op.SelectionSet)
+	// The document is validated as a whole: the definitions the operation
+	// does not reach (other operations, unused or repeated fragments,
+	// anything else) decide the outcome too, so they are part of the key.
+	for _, def := range doc.Definitions {
+		switch d := def.(type) {
+		case *ast.OperationDefinition:
+			if d == op {
+				continue
+			}
+			w.writeString("|OP:")
+			w.writeString(string(d.Operation))
+			w.writeByte(0)
+			if d.Name != nil {
+				w.writeString(d.Name.Value)
+			}
+			w.writeByte(0)
+			w.writeVariableDefs(d.VariableDefinitions)
+			w.writeDirectives(d.Directives)
+			w.writeSelectionSet(d.SelectionSet)
+		case *ast.FragmentDefinition:
+			if d.Name != nil && w.fragments[d.Name.Value] == d && w.visited[d.Name.Value] {
+				// already hashed where it is spread
+				continue
+			}
+			w.writeString("|FD:")
+			if d.Name != nil {
+				w.writeString(d.Name.Value)
+			}
+			w.writeByte(0)
+			if d.TypeCondition != nil && d.TypeCondition.Name != nil {
+				w.writeString(d.TypeCondition.Name.Value)
+			}
+			w.writeDirectives(d.Directives)
+			w.writeSelectionSet(d.SelectionSet)
+		default:
+			if def != nil {
+				// not executable: hashed by its printed form
+				w.writeString("|D:")
+				w.writeString(fmt.Sprintf("%v", printer.Print(def)))
+			}
+		}
+	}
 	return strconv.FormatUint(h.Sum64(), 16)
 }
 
